@@ -86,6 +86,17 @@ theorem Gen_checkTime_eq (op : GoString) (a b : Time) : cmpPay op (.t a) (.t b) 
   congr 1
   simp only [decide_eq_true_eq]
 
+/-- filter.go `checkIn` (the `in` and `has` operators): membership -/
+theorem Gen_checkIn_eq (id : GoString) (ids : List GoString) : Gen.checkIn id ids = ids.contains id := by
+  unfold Gen.checkIn
+  induction ids with
+  | nil => simp
+  | cons a t ih =>
+    by_cases h : id = a
+    · subst h; simp
+    · have h' : ¬ a = id := fun e => h e.symm
+      simp [List.any_cons, List.contains_cons, h, h'] at ih ⊢
+
 end Jsonapi
 
 section Axioms
@@ -95,4 +106,5 @@ open Jsonapi
 #print axioms Gen_checkUint_eq
 #print axioms Gen_checkBool_eq
 #print axioms Gen_checkTime_eq
+#print axioms Gen_checkIn_eq
 end Axioms
